@@ -13,7 +13,7 @@ func init() {
 	register(&propDef{
 		id: "C13",
 		meta: propMeta{
-			explanation: "Decides 'every datagram fits' and the structural half of 'decodes to a prefix' and 'hostile input is survived': (R1) for every emitted buffer slice buf.Bytes()[:n] (returned by an encoder or handed to PacketConn.WriteTo) every non-phi leaf of n is a buf.Len() read that is the first call of a block entered only through the false edge of `buf.Len() > limit` (no call between the tested read and the branch), buf is only ever appended to (no Reset/Truncate/Next/Read*/Grow on it), and the limit handed in by the senders is the listener's maxPacketSize field which is stored once; every WriteTo payload is such a slice or an encoder's result; (R2) in the encode loops every Encode is followed on all paths by that size test before the next Encode, back edge or non-error return, and the decoders stop silently at EOF (announced counts need not be met); (R3) from handlePacket/handleConn, over all reachable module functions: no explicit panic, every index/slice expression is discharged by a length fact, a range index or a constant index into a fixed array, no unchecked type assertion, no non-constant integer division, no make with an input-derived size that is not proven non-negative; residual sites are listed with their invariant; (R4) handleConn sets a deadline before reading and decode loops repeat only after a successful Decode; (R5) received data cannot touch own state (C02.R1). Not decided: msgpack codec behaviour on hostile bytes, allocation sizes inside the codec.",
+			explanation: "Decides 'every datagram fits' and the structural half of 'decodes to a prefix' and 'hostile input is survived': (R1) for every emitted buffer slice buf.Bytes()[:n] (returned by an encoder or handed to PacketConn.WriteTo) every non-phi leaf of n is a buf.Len() read that is the first call of a block entered only through the false edge of `buf.Len() > limit` (no call between the tested read and the branch), buf is only ever appended to (no Reset/Truncate/Next/Read*/Grow on it), and the limit handed in by the senders is the listener's maxPacketSize field which is stored once; every WriteTo payload is such a slice or an encoder's result; (R2) in the encode loops every Encode is followed on all paths by that size test before the next Encode, back edge or non-error return, and the decoders stop silently at EOF (announced counts need not be met); (R3) from handlePacket/handleConn, over all reachable module functions: no explicit panic, every index/slice expression is discharged by a length fact, a range index or a constant index into a fixed array, no unchecked type assertion, no non-constant integer division, no make with an input-derived size that is not proven non-negative; residual sites are listed with their invariant; (R4) handleConn sets a deadline before reading and decode loops repeat only after a successful Decode; (R5) received data cannot touch own state (C02.R1). Not decided: msgpack codec behaviour on hostile bytes, allocation sizes inside the codec. Second round: (R6b) checked lookups are dereferenced only under ok; (R7) error-arm contradiction rule over pkg/gossip; (R8) decoders and dispatchers reject other message types and versions; (R9) no received string reaches a panicking metrics label API unvalidated (reported defect D5, fixed).",
 			ruleText:    "obligation = one emitted slice / leaf / encode call / index site / loop; distinct = distinct keys",
 			assumptions: []string{"bytes.Buffer.Len is the number of unread bytes and nothing reads from the buffer (checked: no read method is called on it)", "ugorji codec returns errors rather than panicking on malformed msgpack (trusted library)"},
 		},
